@@ -398,6 +398,22 @@ def write_replay(pid, v, seed, stratum, scenario, decisions, digest, extra=None)
   return path
 
 
+def confirm_replay(path):
+  """replay a freshly written file in a fresh interpreter: it must fail the same way"""
+  import subprocess
+  env = dict(os.environ)
+  env['PYTHONHASHSEED'] = '0'
+  env['PYTHONPATH'] = VERIF
+  try:
+    out = subprocess.run([sys.executable, '-m', 'sim.cli', 'replay', path], cwd=VERIF, env=env,
+                         stdout=subprocess.PIPE, stderr=subprocess.STDOUT, text=True, timeout=300)
+  except subprocess.TimeoutExpired:
+    return 'TIMEOUT (harness problem)'
+  if 'REPRODUCED' in out.stdout and 'NOT REPRODUCED' not in out.stdout:
+    return 'reproduced, same event-log digest' if 'digest differs' not in out.stdout else 'reproduced, but the digest differs (harness determinism problem)'
+  return 'NOT reproduced (harness determinism problem): ' + out.stdout[-300:].replace('\n', ' | ')
+
+
 def replay_file(path):
   with open(path) as fh:
     doc = json.load(fh)
@@ -512,7 +528,9 @@ def run_check(pid, tier, base_seed=None, jobs=None, budget_s=None):
     path = write_replay(pid, vv, rec['seed'], rec['stratum'], s2, d2, final.digest,
                         {'minimise_tries': tries, 'found_at_index': rec['index']})
     replay_paths.append(path)
+    fresh = confirm_replay(path)
     print('VIOLATION property=%s replay=%s' % (pid, path))
+    print('  replayed in a fresh process: %s' % fresh)
     print('  rule=%s sig=%s' % (vv.rule, json.dumps(vv.sig, sort_keys=True)))
     print('  ' + vv.detail.replace('\n', '\n  ')[:1500])
     exit_code = 1
